@@ -44,6 +44,13 @@ class Sim:
         env = {}
         for p, a in zip(ir.params(fn), args):
             env[p.get("id")] = a
+        # local type aliases of this instantiation (using candidate = mpl::front_t<list>): name -> what it denotes here
+        al = {}
+        for x in ir.walk_expr(ir.body(fn)):
+            if x.get("kind") in ("TypeAliasDecl", "TypedefDecl"):
+                t_ = x.get("type") or {}
+                al[x.get("name")] = t_.get("desugaredQualType") or t_.get("qualType") or ""
+        env["__aliases__"] = al
         self.depth += 1
         try:
             r = self.block(ir.kids(ir.body(fn)), env)
@@ -150,7 +157,10 @@ class Sim:
         if k == "ConditionalOperator":
             return self.ev(ks[1] if self.truth(self.ev(ks[0], env)) else ks[2], env)
         if k == "CXXDynamicCastExpr":
-            to = _short(ir.qtype(n))
+            to = _short((n.get("type") or {}).get("desugaredQualType") or ir.qtype(n))
+            for _ in range(3):                       # through local aliases (candidate = front_t<list>)
+                if to in env.get("__aliases__", {}):
+                    to = _short(env["__aliases__"][to])
             v = self.ev(ks[0], env)
             if v[0] == "ptr" and v[1][0] == "obj":
                 o = v[1]
